@@ -183,25 +183,34 @@ def r4(ctx):
 
 def r5(ctx):
     R = "C09-R5"
-    ctx.rule(R, "UdpSocket::send: the broadcast fan-out is reached only on the `true` edge of Udp::is_broadcast_enabled(src.port()); the `false` "
-                "edge yields PermissionDenied; fan-out targets are hosts with that port assigned")
+    ctx.rule(R, "UdpSocket::send: every send_message / send_loopback of the broadcast branch (behind Ipv4Addr::is_broadcast) is dominated by "
+                "the `true` edge of Udp::is_broadcast_enabled(src.port()); the `false` edge yields PermissionDenied; fan-out targets are "
+                "the hosts with that port assigned")
     s = ctx.body(R, "turmoil::net::udp::UdpSocket::send")
     if not s:
         return
-    be = [(bb, t) for bb, t in s.calls("turmoil::host::Udp::is_broadcast_enabled")]
-    ok = False
-    if be:
-        dl = be[0][1]["d"]["l"]
-        te, fe = [], []
-        for sbb, t_e, f_e, o in guards_on(s, lambda o: o["k"] == "call" and o["t"]["f"].endswith("is_broadcast_enabled")):
-            te += t_e
-            fe += f_e
-        fan = [bb for bb, t in s.calls(re.compile(r"Iterator>::try_for_each$|^std::iter::Iterator::try_for_each$")) if te and s.dominated_by_any(bb, edges=te)]
-        pd = [bb for bb, i, st in s.all_stmts() if st["r"]["k"] == "agg" and st["r"].get("variant") == "PermissionDenied"]
-        ok = bool(fan) and bool(pd) and bool(fe) and all(s.dominated_by_any(x, edges=fe) for x in pd)
-    ctx.inst(R, "send:broadcast-needs-option", ok, s.span, "broadcast is sent only with SO_BROADCAST, otherwise PermissionDenied" if ok else
+    fam = ctx.w.family(s.id)
+    bte = []
+    en_t, en_f = [], []
+    for fb in fam:
+        te, fe = call_guard_edges(fb, re.compile(r"Ipv4Addr::is_broadcast$"))
+        bte += [(fb.id, e) for e in te]
+        te, fe = call_guard_edges(fb, "turmoil::host::Udp::is_broadcast_enabled")
+        en_t += [(fb.id, e) for e in te]
+        en_f += [(fb.id, e) for e in fe]
+    sends = []
+    for fb in fam:
+        for bb, t in fb.calls(re.compile(r"World::send_message$|udp::send_loopback$")):
+            if dominated_in_family(ctx.w, fb, bb, edges=bte):
+                sends.append((fb, bb, t))
+    ok = bool(sends) and bool(en_t) and all(dominated_in_family(ctx.w, fb, bb, edges=en_t) for fb, bb, t in sends)
+    pd = [(fb, bb) for fb in fam for bb, i, st in fb.all_stmts() if st["r"]["k"] == "agg" and st["r"].get("variant") == "PermissionDenied"]
+    okp = bool(pd) and bool(en_f) and all(dominated_in_family(ctx.w, fb, bb, edges=en_f) for fb, bb in pd)
+    ctx.inst(R, "send:broadcast-needs-option", ok and okp, s.span, "broadcast is sent only with SO_BROADCAST, otherwise PermissionDenied" if ok and okp else
              "broadcast fan-out is not guarded by is_broadcast_enabled / does not fail with PermissionDenied")
-    ctx.floor(R, 1)
+    flt = any(True for fb in fam for _ in fb.calls("turmoil::host::Udp::is_port_assigned"))
+    ctx.inst(R, "send:broadcast-targets-bound-ports", flt, s.span, "broadcast targets = hosts with the destination port bound" if flt else "broadcast fan-out no longer filters hosts by the bound port")
+    ctx.floor(R, 2)
 
 
 def r6(ctx):
